@@ -28,4 +28,12 @@ func init() {
 		"Decided: no delivery path bypasses the replay check (every success exit of the prepare functions passes the checked replay marker, and the commit closure handed to the consumers is that marker's); detectors are built with Conn.replayProtectionWindow, which comes from the resolved configuration (configured value if positive, else 64), and with the protocol's maximum sequence number; the future-epoch bound precedes the lazily grown per-epoch detector table; the DTLS 1.3 highest accepted sequence number advances only inside the commit closure.",
 		"The window semantics themselves (exactly-once within W) live in pion/transport/replaydetector, outside the repository; DTLS 1.3 sequence-number reconstruction arithmetic; arrival orders.",
 		ruleReceiveOrder, ruleReplayWindow)
+	register("C07",
+		"Decided: every flight.Packet literal carrying application data, ACK, return-routability, Finished or a DTLS 1.3 handshake message after ServerHello has ShouldEncrypt: true (DTLS 1.2 Finished also epoch 1); alert packets encrypt iff the handshake completed; Write reaches the application-data writer only after Handshake() returned nil and stamps the current local epoch; with ShouldEncrypt the output of processPacket/processHandshakePacket comes from CipherSuite.Encrypt or the DTLS 1.3 seal; epoch-0 application data is never delivered; the exporter secret of every State constructor comes from the negotiated master secret.",
+		"Cryptographic secrecy of the ciphers; interleavings of Write with Close; the DTLS 1.3 exporter (see known findings).",
+		rulePacketLiterals, ruleWritePath, ruleEpochZeroAppData, ruleStateCoverage)
+	register("C19",
+		"Decided: generateState sets every State field from its own source; serialize writes every serializedState field from the State field of the same name; deserialize reads every serialised field and writes every State field; generateInternalState consumes every State field into the internal state, restores the master secret and restores the record counter at the serialised epoch's index; the exported counter is the current epoch's counter (no record number is reused across export, with C09); DTLS 1.3 state is refused at serialize / UnmarshalBinary / generateInternalState / generateState; a resumed connection starts in StateFinished at the role's last flight.",
+		"That the resumed connection interoperates (behaviour); robustness of encoding/gob itself.",
+		ruleStateCoverage, ruleVersion13Refused)
 }
